@@ -258,9 +258,10 @@ class _Spelling(ast.NodeTransformer):
     tf.math.maximum / tf.nn.sigmoid ...  -> tf.maximum / tf.sigmoid (aliases
       of one object);
     isinstance(x, A) or isinstance(x, B) -> isinstance(x, (A, B));
-    x = x - y  <->  x -= y : the augmented form is the normal form, except for
-      `x = x + [..]` / `x += [..]` (list display on the right), where the
-      binary form is (the sequence-kind rule T3 reads concatenations);
+    x = x - y  ->  x -= y : the augmented form is the normal form, except
+      with a list display on the right: `x += [..]` extends a list in place
+      (aliases see it) while `x = x + [..]` builds a new one - those two are
+      different programs and both are left as written;
     `if c: ...; return/raise  else: B` -> `if c: ...; return/raise` followed
       by B (early-return form; an else after a terminated arm is only
       layout)."""
@@ -424,17 +425,10 @@ class _Spelling(ast.NodeTransformer):
     return _Spelling._split_chain(first) + [st]
 
   def visit_AugAssign(self, n):
+    # `x += [..]` is NOT rewritten to `x = x + [..]`: on a list the augmented
+    # form extends the object in place (visible through every alias, e.g. the
+    # caller's hyper-parameter list), the binary form builds a new list
     self.generic_visit(n)
-    if isinstance(n.op, ast.Add) and self._seq_display(n.value) and \
-        isinstance(n.target, (ast.Name, ast.Subscript, ast.Attribute)):
-      import copy
-      load = copy.deepcopy(n.target)
-      for x in ast.walk(load):
-        if hasattr(x, 'ctx') and x is load:
-          x.ctx = ast.Load()
-      return ast.copy_location(ast.Assign(
-          targets=[n.target], value=ast.copy_location(ast.BinOp(
-              left=load, op=n.op, right=n.value), n.value)), n)
     return n
 
 
